@@ -1,5 +1,718 @@
-//! stub — to be written
-use crate::core::{Acc, Ctx};
-use serde_json::Value;
-pub fn run(_ctx: &Ctx, _acc: &mut Acc) {}
-pub fn replay(_v: &Value) -> Option<(bool, String)> { None }
+//! C12 (a) + (c) — totality of metadata reading, of every accessor on whatever parsed, and of the image sniffers.
+//!
+//! (a) 21 hand-serialised valid metadata sections (one per block-type combination, ≤ 600 bytes, written here
+//!     byte by byte so that they do not depend on the crate's writer) ×
+//!       · the unmodified section,
+//!       · EVERY single-byte substitution (all 255 other values at every position),
+//!       · EVERY truncation point (prefix lengths 0..len-1),
+//!       · every block-length field forced to {0, 1, actual-1, actual+1, 2^24-1},
+//!       · thorough tier: every ORDERED PAIR of distinct "prefix positions" (block-header bytes, vorbis-comment
+//!         length/count fields, picture type/string/data length fields, cue-sheet track and index counts) with
+//!         all 255 other values at the first position × the 24-value boundary alphabet PAIR_ALPHA at the second.
+//!     Entry points per input: BlockList::read, read_blocks(..).collect, read_info, read_block::<T> for all 7 T
+//!     (the pair tier runs BlockList::read + read_blocks + accessors only).  On everything that parses every accessor
+//!     is called: the 8 `Metadata` trait methods (on the BlockList and on the Streaminfo from read_info) and the 10
+//!     cue-sheet accessors on every CUESHEET block that any entry point returned.
+//! (c) Picture::new(Other, "", data) over minimal PNG (5 colour types, palette with/without PLTE, PLTE behind another
+//!     chunk, odd PLTE length), JPEG (each of the 13 SOF markers, directly and behind skipped segments), GIF87a/89a
+//!     × every single-byte substitution × every truncation, plus ALL byte strings of length ≤ 2 (thorough: ≤ 3)
+//!     appended to each magic prefix.
+//!
+//! Oracle: every call returns (Ok or Err) — no panic (both build profiles; the shard's profile is recorded by the
+//! driver), terminates (driver watchdog), and the peak heap of one case stays ≤ 64 MiB + 16 × input length.
+//! Justification of the bound: every variable-length field is read by bitstream-io's `read_to_vec` in 4 KiB chunks, so
+//! such allocations are bounded by the bytes actually present (Vec doubling ≤ 2×, our own copies and the ten entry
+//! points' results stay far below 16×); the only allocation driven by a *declared* size is SEEKTABLE's
+//! `Contiguous::with_capacity(size / 18)`, at most 932067 points × 24 B ≈ 21.3 MiB (mod.rs 2009-2013, 2662-2666),
+//! which the 64 MiB constant covers with margin for two simultaneous results.
+use crate::core::{alloc_mark, alloc_peak_since, guarded, hex, panic_loc, unhex, Acc, Ctx};
+use flac_codec::metadata::{
+    read_block, read_blocks, read_info, Application, Block, BlockList, Cuesheet, Metadata, Padding, Picture, PictureType, SeekTable, Streaminfo, VorbisComment,
+};
+use serde_json::{json, Value};
+use std::hint::black_box;
+
+const ALLOC_BASE: usize = 64 << 20;
+fn alloc_bound(len: usize) -> usize {
+    ALLOC_BASE + 16 * len
+}
+
+/// second-position alphabet of the thorough pair tier
+const PAIR_ALPHA: [u8; 24] = [0x00, 0x01, 0x02, 0x03, 0x04, 0x05, 0x06, 0x07, 0x08, 0x12, 0x22, 0x24, 0x7f, 0x80, 0x81, 0x82, 0x83, 0x84, 0x85, 0x86, 0x87, 0xaa, 0xfe, 0xff];
+
+// ---------------------------------------------------------------------------------------------
+// hand serialisers (independent of the crate)
+
+pub(crate) fn be(n: u64, bytes: usize) -> Vec<u8> {
+    (0..bytes).rev().map(|i| (n >> (8 * i)) as u8).collect()
+}
+fn le32(n: u32) -> [u8; 4] {
+    n.to_le_bytes()
+}
+
+/// "fLaC" + blocks; the last flag is set on the final block only
+pub(crate) fn section(blocks: &[(u8, Vec<u8>)]) -> Vec<u8> {
+    let mut v = b"fLaC".to_vec();
+    for (i, (ty, body)) in blocks.iter().enumerate() {
+        v.push(*ty | if i + 1 == blocks.len() { 0x80 } else { 0 });
+        v.extend(be(body.len() as u64, 3));
+        v.extend_from_slice(body);
+    }
+    v
+}
+
+#[allow(clippy::too_many_arguments)]
+pub(crate) fn si_body(minb: u16, maxb: u16, minf: u32, maxf: u32, rate: u32, ch: u8, bps: u8, total: u64, md5: [u8; 16]) -> Vec<u8> {
+    let mut v = Vec::with_capacity(34);
+    v.extend(be(minb as u64, 2));
+    v.extend(be(maxb as u64, 2));
+    v.extend(be(minf as u64, 3));
+    v.extend(be(maxf as u64, 3));
+    let packed: u64 = ((rate as u64) << 44) | (((ch - 1) as u64) << 41) | (((bps - 1) as u64) << 36) | total;
+    v.extend(be(packed, 8));
+    v.extend(md5);
+    v
+}
+fn si_std() -> (u8, Vec<u8>) {
+    (0, si_body(4096, 4096, 14, 9000, 44100, 2, 16, 441000, *b"0123456789abcdef"))
+}
+fn seek_body(points: &[Option<(u64, u64, u16)>]) -> Vec<u8> {
+    let mut v = Vec::new();
+    for p in points {
+        let (a, b, c) = p.unwrap_or((u64::MAX, 0, 0));
+        v.extend(be(a, 8));
+        v.extend(be(b, 8));
+        v.extend(be(c as u64, 2));
+    }
+    v
+}
+fn vc_body(vendor: &str, fields: &[&str]) -> Vec<u8> {
+    let mut v = Vec::new();
+    v.extend(le32(vendor.len() as u32));
+    v.extend(vendor.as_bytes());
+    v.extend(le32(fields.len() as u32));
+    for f in fields {
+        v.extend(le32(f.len() as u32));
+        v.extend(f.as_bytes());
+    }
+    v
+}
+#[allow(clippy::too_many_arguments)]
+fn pic_body(ptype: u32, mime: &str, desc: &str, w: u32, h: u32, depth: u32, colors: u32, data: &[u8]) -> Vec<u8> {
+    let mut v = Vec::new();
+    v.extend(be(ptype as u64, 4));
+    v.extend(be(mime.len() as u64, 4));
+    v.extend(mime.as_bytes());
+    v.extend(be(desc.len() as u64, 4));
+    v.extend(desc.as_bytes());
+    for x in [w, h, depth, colors] {
+        v.extend(be(x as u64, 4));
+    }
+    v.extend(be(data.len() as u64, 4));
+    v.extend(data);
+    v
+}
+struct CueTrack {
+    offset: u64,
+    number: u8,
+    isrc: [u8; 12],
+    flags: u8, // 0x80 non-audio, 0x40 pre-emphasis
+    idx: Vec<(u64, u8)>,
+}
+fn cue_body(catalog: &[u8], lead_in: u64, cdda: bool, tracks: &[CueTrack], lead_out: u64) -> Vec<u8> {
+    let mut v = vec![0u8; 128];
+    v[..catalog.len()].copy_from_slice(catalog);
+    v.extend(be(lead_in, 8));
+    v.push(if cdda { 0x80 } else { 0 });
+    v.extend([0u8; 258]);
+    v.push(tracks.len() as u8 + 1);
+    for t in tracks {
+        v.extend(be(t.offset, 8));
+        v.push(t.number);
+        v.extend(t.isrc);
+        v.push(t.flags);
+        v.extend([0u8; 13]);
+        v.push(t.idx.len() as u8);
+        for (o, n) in &t.idx {
+            v.extend(be(*o, 8));
+            v.push(*n);
+            v.extend([0u8; 3]);
+        }
+    }
+    v.extend(be(lead_out, 8));
+    v.push(if cdda { 170 } else { 255 });
+    v.extend([0u8; 12]);
+    v.extend([0u8; 14]);
+    v.push(0);
+    v
+}
+
+const S: u64 = 588;
+const ISRC: [u8; 12] = *b"AA6Q72000047";
+
+fn bases() -> Vec<(&'static str, Vec<u8>)> {
+    let pad = |n: usize| (1u8, vec![0u8; n]);
+    let app = |id: &[u8; 4], d: &[u8]| (2u8, [&id[..], d].concat());
+    let seek = (3u8, seek_body(&[Some((0, 0, 4096)), Some((4096, 1234, 4096)), None]));
+    let vc = (4u8, vc_body("vendor é", &["TITLE=x", "WAVEFORMATEXTENSIBLE_CHANNEL_MASK=0x0003", "noequals"]));
+    let pic = |t: u32| (6u8, pic_body(t, "image/png", "dé", 32, 32, 24, 0, &[0x89, b'P', b'N', b'G', 1, 2, 3]));
+    let cue_cdda = (
+        5u8,
+        cue_body(
+            b"1234567890123",
+            88200,
+            true,
+            &[
+                CueTrack { offset: 0, number: 1, isrc: ISRC, flags: 0x40, idx: vec![(0, 1)] },
+                CueTrack { offset: 1000 * S, number: 2, isrc: [0; 12], flags: 0x80, idx: vec![(0, 0), (150 * S, 1), (300 * S, 2)] },
+            ],
+            5000 * S,
+        ),
+    );
+    let cue_non = (
+        5u8,
+        cue_body(
+            b"42",
+            0,
+            false,
+            &[
+                CueTrack { offset: 0, number: 1, isrc: [0; 12], flags: 0, idx: vec![(0, 0), (7, 1)] },
+                CueTrack { offset: 1001, number: 2, isrc: ISRC, flags: 0xC0, idx: vec![(0, 1), (13, 2)] },
+            ],
+            99_999,
+        ),
+    );
+    // extremes: offsets whose sums leave u64
+    let m588 = (u64::MAX / S) * S;
+    let cue_cdda_x = (
+        5u8,
+        cue_body(
+            b"",
+            u64::MAX,
+            true,
+            &[
+                CueTrack { offset: 0, number: 1, isrc: [0; 12], flags: 0, idx: vec![(0, 1)] },
+                CueTrack { offset: m588, number: 2, isrc: [0; 12], flags: 0, idx: vec![(0, 0), (S, 1)] },
+            ],
+            m588,
+        ),
+    );
+    let cue_non_x = (
+        5u8,
+        cue_body(
+            &[b'9'; 128],
+            0,
+            false,
+            &[
+                CueTrack { offset: 0, number: 1, isrc: [0; 12], flags: 0, idx: vec![(0, 1)] },
+                CueTrack { offset: u64::MAX - 1, number: 2, isrc: [0; 12], flags: 0, idx: vec![(0, 0), (5, 1)] },
+            ],
+            u64::MAX,
+        ),
+    );
+    let si_rate0 = (0u8, si_body(16, 16, 0, 0, 0, 1, 8, 1000, [0; 16]));
+    let si_max = (0u8, si_body(65535, 65535, 0xFF_FFFF, 0xFF_FFFF, 0xF_FFFF, 8, 32, (1 << 36) - 1, [0xFF; 16]));
+    let si_min = (0u8, si_body(0, 0, 0, 0, 1, 1, 1, 0, [0; 16]));
+    let mut with_frames = section(&[si_std()]);
+    with_frames.extend([0xFF, 0xF8, 0xC9, 0x18, 0x00, 0xC2, 0x00, 0x00, 0x12, 0x34, 0x56, 0x78]);
+    let v = vec![
+        ("si", section(&[si_std()])),
+        ("si0+pad", section(&[si_rate0.clone(), pad(5)])),
+        ("si+app", section(&[si_std(), app(b"riff", &[1, 2, 3, 4, 5])])),
+        ("si+seek", section(&[si_std(), seek.clone()])),
+        ("si+vc", section(&[si_std(), vc.clone()])),
+        ("si+cue-cdda", section(&[si_std(), cue_cdda])),
+        ("si+cue-non", section(&[si_std(), cue_non])),
+        ("si+pic", section(&[si_std(), pic(3)])),
+        ("si+vc+pad", section(&[si_std(), vc.clone(), pad(9)])),
+        ("si+seek+vc", section(&[si_std(), seek.clone(), (4u8, vc_body("", &[]))])),
+        ("si+app+app", section(&[si_std(), app(b"aiff", &[]), app(b"\0\0\x12\x34", &[9; 3])])),
+        ("si+png-icon+icon", section(&[si_std(), pic(1), pic(2)])),
+        ("si+vc+pic", section(&[si_std(), (4u8, vc_body("v", &["A=b"])), pic(20)])),
+        ("si+seek+app+pad", section(&[si_std(), seek.clone(), app(b"test", &[7]), pad(0)])),
+        ("si+cue-cdda-extreme", section(&[si_std(), cue_cdda_x])),
+        ("si+cue-non-extreme", section(&[si_std(), cue_non_x])),
+        ("si-max", section(&[si_max])),
+        ("si-min+vc-badmask", section(&[si_min, (4u8, vc_body("v", &["WAVEFORMATEXTENSIBLE_CHANNEL_MASK=zz", "waveformatextensible_channel_mask=0xFFFFFFFF"]))])),
+        ("si+pad+pad", section(&[si_std(), pad(3), pad(2)])),
+        ("si+frames", with_frames),
+        ("si+vc+app+seek+pic", section(&[si_std(), (4u8, vc_body("x", &["K=v", "ü=€"])), app(b"abcd", &[1]), seek, pic(0)])),
+    ];
+    for (n, s) in &v {
+        assert!(s.len() <= 600, "base {n} is {} bytes", s.len());
+    }
+    v
+}
+
+/// positions of header bytes and length prefixes, and the (offset, actual length) of every block header
+fn prefix_positions(sec: &[u8]) -> (Vec<usize>, Vec<(usize, u32)>) {
+    let mut pos: Vec<usize> = Vec::new();
+    let mut hdrs = Vec::new();
+    let rd = |p: usize, n: usize, le: bool| -> Option<usize> {
+        let s = sec.get(p..p + n)?;
+        Some(if le { s.iter().rev().fold(0usize, |a, b| (a << 8) | *b as usize) } else { s.iter().fold(0usize, |a, b| (a << 8) | *b as usize) })
+    };
+    let mut o = 4;
+    while o + 4 <= sec.len() {
+        let ty = sec[o] & 0x7f;
+        let last = sec[o] & 0x80 != 0;
+        let len = rd(o + 1, 3, false).unwrap();
+        pos.extend(o..o + 4);
+        hdrs.push((o, len as u32));
+        let b = o + 4;
+        (|| -> Option<()> {
+            match ty {
+                4 => {
+                    let mut p = b;
+                    let vl = rd(p, 4, true)?;
+                    pos.extend(p..p + 4);
+                    p += 4 + vl;
+                    let n = rd(p, 4, true)?;
+                    pos.extend(p..p + 4);
+                    p += 4;
+                    for _ in 0..n {
+                        let l = rd(p, 4, true)?;
+                        pos.extend(p..p + 4);
+                        p += 4 + l;
+                    }
+                }
+                5 => {
+                    pos.push(b + 395);
+                    let n = rd(b + 395, 1, false)?;
+                    let mut p = b + 396;
+                    for _ in 0..n {
+                        pos.push(p + 35);
+                        let k = rd(p + 35, 1, false)?;
+                        p += 36 + 12 * k;
+                    }
+                }
+                6 => {
+                    pos.extend(b..b + 4);
+                    let mut p = b + 4;
+                    let ml = rd(p, 4, false)?;
+                    pos.extend(p..p + 4);
+                    p += 4 + ml;
+                    let dl = rd(p, 4, false)?;
+                    pos.extend(p..p + 4);
+                    p += 4 + dl + 16;
+                    rd(p, 4, false)?;
+                    pos.extend(p..p + 4);
+                }
+                _ => {}
+            }
+            Some(())
+        })();
+        if last {
+            break;
+        }
+        o = b + len;
+    }
+    pos.retain(|p| *p < sec.len());
+    (pos, hdrs)
+}
+
+// ---------------------------------------------------------------------------------------------
+// one metadata case
+
+type Findings = Vec<(String, String)>;
+
+fn err_name(e: &flac_codec::Error) -> String {
+    match e {
+        flac_codec::Error::Io(i) => format!("Io:{:?}", i.kind()),
+        flac_codec::Error::Cuesheet(c) => format!("Cuesheet:{c:?}"),
+        o => format!("{o:?}").split(['(', ' ', '{']).next().unwrap_or("?").to_string(),
+    }
+}
+
+macro_rules! probe {
+    ($f:expr, $who:expr, $name:literal, $e:expr) => {
+        if let Err(p) = guarded(|| {
+            black_box($e);
+        }) {
+            $f.push((format!("meta|accessor|panic@{}", panic_loc(&p)), format!("{}.{} panics: {p}", $who, $name)));
+        }
+    };
+}
+
+fn metadata_accessors<M: Metadata>(m: &M, who: &str, f: &mut Findings) -> u64 {
+    probe!(f, who, "duration", m.duration());
+    probe!(f, who, "decoded_len", m.decoded_len());
+    probe!(f, who, "channel_mask", m.channel_mask());
+    probe!(f, who, "channel_count", m.channel_count());
+    probe!(f, who, "sample_rate", m.sample_rate());
+    probe!(f, who, "bits_per_sample", m.bits_per_sample());
+    probe!(f, who, "total_samples", m.total_samples());
+    probe!(f, who, "md5", m.md5().copied());
+    8
+}
+
+fn cue_accessors(c: &Cuesheet, f: &mut Findings) -> u64 {
+    let who = if c.is_cdda() { "Cuesheet[CDDA]" } else { "Cuesheet[NonCDDA]" };
+    probe!(f, who, "track_count", c.track_count());
+    probe!(f, who, "tracks", c.tracks().count());
+    probe!(f, who, "track_sample_ranges", c.track_sample_ranges().map(|r| r.start ^ r.end).fold(0, |a, b| a ^ b));
+    probe!(f, who, "track_byte_ranges(1,8)", c.track_byte_ranges(1, 8).map(|r| r.start ^ r.end).fold(0, |a, b| a ^ b));
+    probe!(f, who, "track_byte_ranges(2,16)", c.track_byte_ranges(2, 16).map(|r| r.start ^ r.end).fold(0, |a, b| a ^ b));
+    probe!(f, who, "track_byte_ranges(8,32)", c.track_byte_ranges(8, 32).map(|r| r.start ^ r.end).fold(0, |a, b| a ^ b));
+    probe!(f, who, "display", c.display("f").to_string());
+    probe!(f, who, "catalog_number", c.catalog_number().to_string());
+    probe!(f, who, "lead_in_samples", c.lead_in_samples());
+    probe!(f, who, "is_cdda", c.is_cdda());
+    10
+}
+
+/// one finding per signature clause (= per root cause); the texts of all callers that hit it are joined
+fn merge(mut f: Findings) -> Findings {
+    f.sort();
+    f.dedup();
+    let mut out: Findings = Vec::new();
+    for (c, t) in f {
+        match out.last_mut() {
+            Some((lc, lt)) if *lc == c => {
+                lt.push_str("; ");
+                lt.push_str(&t);
+            }
+            _ => out.push((c, t)),
+        }
+    }
+    out
+}
+
+struct CaseOut {
+    label: String,
+    findings: Findings,
+    steps: u64,
+}
+
+fn entry<T>(f: &mut Findings, name: &str, r: Result<T, String>) -> Option<T> {
+    match r {
+        Ok(v) => Some(v),
+        Err(p) => {
+            f.push((format!("meta|read|panic@{}", panic_loc(&p)), format!("{name} panics: {p}")));
+            None
+        }
+    }
+}
+
+fn meta_case(bytes: &[u8], full: bool) -> CaseOut {
+    let mut f: Findings = Vec::new();
+    let mut steps = 0u64;
+    let mark = alloc_mark();
+    // BlockList::read
+    steps += 1;
+    let list = entry(&mut f, "BlockList::read", guarded(|| BlockList::read(bytes)));
+    let label = match &list {
+        None => "panic".to_string(),
+        Some(Ok(l)) => format!("ok:{}blocks", l.blocks().count().min(6)),
+        Some(Err(e)) => format!("err:{}", err_name(e)),
+    };
+    if let Some(Ok(l)) = &list {
+        steps += metadata_accessors(l, "BlockList", &mut f);
+        for c in l.get_all::<Cuesheet>() {
+            steps += cue_accessors(c, &mut f);
+        }
+    }
+    // read_blocks: every item the iterator yields until it ends
+    steps += 1;
+    let items = entry(&mut f, "read_blocks", guarded(|| read_blocks(bytes).collect::<Vec<Result<Block, flac_codec::Error>>>()));
+    if let Some(items) = &items {
+        let in_list = matches!(&list, Some(Ok(_)));
+        for it in items {
+            if let Ok(Block::Cuesheet(c)) = it {
+                if !in_list {
+                    steps += cue_accessors(c, &mut f);
+                }
+            }
+        }
+    }
+    if full {
+        steps += 8;
+        if let Some(Ok(si)) = entry(&mut f, "read_info", guarded(|| read_info(bytes))) {
+            steps += metadata_accessors(&si, "Streaminfo", &mut f);
+        }
+        entry(&mut f, "read_block<Streaminfo>", guarded(|| read_block::<_, Streaminfo>(bytes).is_ok()));
+        entry(&mut f, "read_block<Padding>", guarded(|| read_block::<_, Padding>(bytes).is_ok()));
+        entry(&mut f, "read_block<Application>", guarded(|| read_block::<_, Application>(bytes).is_ok()));
+        entry(&mut f, "read_block<SeekTable>", guarded(|| read_block::<_, SeekTable>(bytes).is_ok()));
+        entry(&mut f, "read_block<VorbisComment>", guarded(|| read_block::<_, VorbisComment>(bytes).is_ok()));
+        if let Some(Ok(Some(c))) = entry(&mut f, "read_block<Cuesheet>", guarded(|| read_block::<_, Cuesheet>(bytes))) {
+            // the first cue sheet may be reachable here even when a later block makes the list unreadable
+            if !matches!(&list, Some(Ok(_))) && items.as_ref().map(|i| !i.iter().any(|x| matches!(x, Ok(Block::Cuesheet(_))))).unwrap_or(true) {
+                steps += cue_accessors(&c, &mut f);
+            }
+        }
+        entry(&mut f, "read_block<Picture>", guarded(|| read_block::<_, Picture>(bytes).is_ok()));
+    }
+    drop(items);
+    drop(list);
+    let peak = alloc_peak_since(mark);
+    if peak > alloc_bound(bytes.len()) {
+        f.push(("meta|alloc-bound".to_string(), format!("peak heap {peak} bytes for a {}-byte input exceeds 64 MiB + 16 × length", bytes.len())));
+    }
+    CaseOut { label, findings: merge(f), steps }
+}
+
+fn exec_meta(acc: &mut Acc, base: &str, mode: &str, bytes: &[u8], full: bool) {
+    let out = meta_case(bytes, full);
+    acc.states += 1;
+    acc.executions += 1;
+    acc.transitions += out.steps;
+    acc.dim(&format!("meta_cases_{mode}"), 1);
+    acc.outcome(format!("meta:{}{}", out.label, if out.findings.is_empty() { "" } else { ":VIOLATION" }));
+    for (clause, text) in out.findings {
+        acc.violation(format!("C12|{clause}"), format!("metadata section '{base}' ({mode}, {} bytes): {text}", bytes.len()), json!({"kind":"c12-meta","base":base,"mode":mode,"full":full,"hex":hex(bytes)}));
+    }
+}
+
+fn meta(ctx: &Ctx, acc: &mut Acc) {
+    for (name, sec) in bases() {
+        let (pos, hdrs) = prefix_positions(&sec);
+        acc.dim("meta_base_sections", if ctx.shard == 0 { 1 } else { 0 });
+        if ctx.mine() {
+            exec_meta(acc, name, "base", &sec, true);
+            acc.sample(json!({"kind":"c12-meta","base":name,"mode":"base","hex":hex(&sec)}));
+        }
+        // every single-byte substitution
+        for i in 0..sec.len() {
+            for v in 0..=255u8 {
+                if v == sec[i] {
+                    continue;
+                }
+                if !ctx.mine() {
+                    continue;
+                }
+                let mut m = sec.clone();
+                m[i] = v;
+                exec_meta(acc, name, "subst1", &m, true);
+            }
+        }
+        // every truncation
+        for n in 0..sec.len() {
+            if !ctx.mine() {
+                continue;
+            }
+            exec_meta(acc, name, "truncate", &sec[..n], true);
+        }
+        // every block-length field forced
+        for &(o, len) in &hdrs {
+            let mut forced: Vec<u32> = vec![0, 1, len.wrapping_sub(1), len + 1, (1 << 24) - 1];
+            forced.retain(|x| *x != len && *x < (1 << 24));
+            forced.sort();
+            forced.dedup();
+            for x in forced {
+                if !ctx.mine() {
+                    continue;
+                }
+                let mut m = sec.clone();
+                m[o + 1..o + 4].copy_from_slice(&be(x as u64, 3));
+                exec_meta(acc, name, "length-forced", &m, true);
+            }
+        }
+        // thorough: ordered pairs of prefix positions, 255 values × boundary alphabet
+        if ctx.thorough() {
+            for &p in &pos {
+                for &q in &pos {
+                    if p == q {
+                        continue;
+                    }
+                    for v in 0..=255u8 {
+                        if v == sec[p] {
+                            continue;
+                        }
+                        for &w in &PAIR_ALPHA {
+                            if w == sec[q] {
+                                continue;
+                            }
+                            if !ctx.mine() {
+                                continue;
+                            }
+                            let mut m = sec.clone();
+                            m[p] = v;
+                            m[q] = w;
+                            exec_meta(acc, name, "subst2", &m, false);
+                        }
+                    }
+                }
+            }
+        }
+    }
+    if ctx.thorough() && ctx.shard == 0 {
+        acc.notes.push(format!("C12(a) pair tier: ordered pairs of distinct prefix positions, all 255 other values at the first × {:02x?} at the second; entry points BlockList::read + read_blocks + accessors", PAIR_ALPHA));
+    }
+}
+
+// ---------------------------------------------------------------------------------------------
+// image sniffers
+
+pub(crate) const PNG_MAGIC: [u8; 8] = [0x89, 0x50, 0x4E, 0x47, 0x0D, 0x0A, 0x1A, 0x0A];
+
+fn chunk(ty: &[u8; 4], data: &[u8]) -> Vec<u8> {
+    let mut v = be(data.len() as u64, 4);
+    v.extend(ty);
+    v.extend(data);
+    v.extend([0xDE, 0xAD, 0xBE, 0xEF]); // CRC is not checked by the sniffer
+    v
+}
+/// minimal PNG: signature, IHDR (16×9), optionally another chunk, optionally a PLTE with `plte` bytes
+pub(crate) fn png(color_type: u8, bit_depth: u8, pre_chunk: bool, plte: Option<usize>) -> Vec<u8> {
+    let mut v = PNG_MAGIC.to_vec();
+    let mut ihdr = be(16, 4);
+    ihdr.extend(be(9, 4));
+    ihdr.extend([bit_depth, color_type, 0, 0, 0]);
+    v.extend(chunk(b"IHDR", &ihdr));
+    if pre_chunk {
+        v.extend(chunk(b"gAMA", &[0, 0, 0xB1, 0x8F]));
+    }
+    if let Some(n) = plte {
+        v.extend(chunk(b"PLTE", &vec![0x55; n]));
+    }
+    v
+}
+/// minimal JPEG: SOI, optional skipped segments, SOF marker `sof`
+pub(crate) fn jpeg(sof: u8, skipped: usize) -> Vec<u8> {
+    let mut v = vec![0xFF, 0xD8];
+    if skipped >= 1 {
+        v.extend([0xFF, 0xE0, 0x00, 0x10]);
+        v.extend(b"JFIF\0\x01\x01\0\0\x01\0\x01\0\0");
+    }
+    if skipped >= 2 {
+        v.extend([0xFF, 0xDB, 0x00, 0x02]); // empty segment (length covers itself only)
+        v.extend([0xFF, 0xFE, 0x00, 0x05, b'h', b'i', b'!']);
+    }
+    v.extend([0xFF, sof, 0x00, 0x11, 8, 0x00, 0x4B, 0x00, 0x64, 3, 1, 0x22, 0, 2, 0x11, 1, 3, 0x11, 1]);
+    v
+}
+pub(crate) fn gif(version: &[u8; 3]) -> Vec<u8> {
+    let mut v = b"GIF".to_vec();
+    v.extend(version);
+    v.extend([0x90, 0x01, 0x2C, 0x01, 0xF7, 0x00, 0x00]);
+    v
+}
+
+const SOF: [u8; 13] = [0xC0, 0xC1, 0xC2, 0xC3, 0xC5, 0xC6, 0xC7, 0xC9, 0xCA, 0xCB, 0xCD, 0xCE, 0xCF];
+
+fn image_bases() -> Vec<(String, Vec<u8>)> {
+    let mut v: Vec<(String, Vec<u8>)> = Vec::new();
+    for (ct, depth) in [(0u8, 8u8), (0, 16), (2, 8), (2, 16), (4, 8), (6, 8), (6, 16)] {
+        v.push((format!("png-ct{ct}-d{depth}"), png(ct, depth, false, None)));
+    }
+    v.push(("png-ct3-plte".into(), png(3, 8, false, Some(12))));
+    v.push(("png-ct3-no-plte".into(), png(3, 8, false, None)));
+    v.push(("png-ct3-chunk-then-plte".into(), png(3, 4, true, Some(6))));
+    v.push(("png-ct3-odd-plte".into(), png(3, 8, false, Some(4))));
+    v.push(("png-ct2-with-plte".into(), png(2, 8, true, Some(3))));
+    for s in SOF {
+        v.push((format!("jpeg-sof{s:02x}"), jpeg(s, 0)));
+    }
+    v.push(("jpeg-app0-sofc0".into(), jpeg(0xC0, 1)));
+    v.push(("jpeg-app0-dqt-com-sofc2".into(), jpeg(0xC2, 2)));
+    v.push(("gif87a".into(), gif(b"87a")));
+    v.push(("gif89a".into(), gif(b"89a")));
+    v
+}
+
+fn img_case(data: &[u8]) -> (String, Findings) {
+    let mut f = Findings::new();
+    let mark = alloc_mark();
+    let r = guarded(|| Picture::new(PictureType::Other, "", data.to_vec()));
+    let label = match &r {
+        Err(p) => {
+            f.push((format!("img|Picture::new|panic@{}", panic_loc(p)), format!("Picture::new panics: {p}")));
+            "panic".to_string()
+        }
+        Ok(Ok(p)) => format!("ok:{}", p.media_type),
+        Ok(Err(e)) => {
+            let s = format!("{e:?}");
+            if s.starts_with("Io") { "err:Io".to_string() } else { format!("err:{}", s.replace('"', "")) }
+        }
+    };
+    drop(r);
+    let peak = alloc_peak_since(mark);
+    if peak > alloc_bound(data.len()) {
+        f.push(("img|alloc-bound".to_string(), format!("peak heap {peak} bytes for {} image bytes", data.len())));
+    }
+    (label, f)
+}
+
+fn exec_img(acc: &mut Acc, base: &str, mode: &str, data: &[u8]) {
+    let (label, findings) = img_case(data);
+    acc.states += 1;
+    acc.executions += 1;
+    acc.transitions += 1;
+    acc.dim(&format!("img_cases_{mode}"), 1);
+    acc.outcome(format!("img:{label}"));
+    for (clause, text) in findings {
+        acc.violation(format!("C12|{clause}"), format!("image '{base}' ({mode}, {} bytes {}): {text}", data.len(), hex(&data[..data.len().min(48)])), json!({"kind":"c12-img","base":base,"mode":mode,"hex":hex(data)}));
+    }
+}
+
+fn sniffers(ctx: &Ctx, acc: &mut Acc) {
+    for (name, img) in image_bases() {
+        if ctx.mine() {
+            exec_img(acc, &name, "base", &img);
+            acc.sample(json!({"kind":"c12-img","base":name,"mode":"base","hex":hex(&img)}));
+        }
+        for i in 0..img.len() {
+            for v in 0..=255u8 {
+                if v == img[i] {
+                    continue;
+                }
+                if !ctx.mine() {
+                    continue;
+                }
+                let mut m = img.clone();
+                m[i] = v;
+                exec_img(acc, &name, "subst1", &m);
+            }
+        }
+        for n in 0..img.len() {
+            if !ctx.mine() {
+                continue;
+            }
+            exec_img(acc, &name, "truncate", &img[..n]);
+        }
+    }
+    // all byte strings of length ≤ 2 (thorough: ≤ 3) appended to each magic prefix
+    let maxlen = if ctx.quick { 2 } else { 3 };
+    for (name, magic) in [("png-magic", PNG_MAGIC.to_vec()), ("jpeg-magic", vec![0xFF, 0xD8, 0xFF]), ("gif-magic", b"GIF".to_vec())] {
+        for len in 0..=maxlen {
+            let total: u32 = 1 << (8 * len);
+            for n in 0..total {
+                if !ctx.mine() {
+                    continue;
+                }
+                let mut m = magic.clone();
+                m.extend(&be(n as u64, len));
+                exec_img(acc, name, "suffix", &m);
+            }
+        }
+    }
+}
+
+pub fn run(ctx: &Ctx, acc: &mut Acc) {
+    let t = std::time::Instant::now();
+    meta(ctx, acc);
+    acc.dim("cpu_ms_meta", t.elapsed().as_millis() as u64);
+    let t = std::time::Instant::now();
+    sniffers(ctx, acc);
+    acc.dim("cpu_ms_sniffers", t.elapsed().as_millis() as u64);
+}
+
+pub fn replay(v: &Value) -> Option<(bool, String)> {
+    let kind = v["kind"].as_str()?;
+    let sig = v["signature"].as_str().unwrap_or("");
+    let still = |f: &Findings| if sig.is_empty() { !f.is_empty() } else { f.iter().any(|(c, _)| format!("C12|{c}") == sig) };
+    match kind {
+        "c12-meta" => {
+            let bytes = unhex(v["hex"].as_str()?);
+            let out = meta_case(&bytes, v["full"].as_bool().unwrap_or(true));
+            Some((still(&out.findings), format!("BlockList::read → {}; findings: {:?}", out.label, out.findings)))
+        }
+        "c12-img" => {
+            let bytes = unhex(v["hex"].as_str()?);
+            let (label, f) = img_case(&bytes);
+            Some((still(&f), format!("Picture::new → {label}; findings: {f:?}")))
+        }
+        _ => None,
+    }
+}
